@@ -58,8 +58,7 @@ func networkRoots(w *World, r *Run, rule string) []*ssa.Function {
 // confirmedSafe: implicit-panic sites that the zone cannot discharge, confirmed by reading; one reason each.
 // Key: function | kind | operand description (semantic, not positional).
 var confirmedSafe = map[string]string{
-	"(*" + pWitness + ".Proof).Unmarshal | slice | strings.Split result [:len-1]":                  "strings.Split always returns at least one element, so len-1 >= 0",
-	modPath + "/internal/feeder/sumdb.FeedLog$1 | slice2arr | to.Hash -> [32]byte":                 "the checkpoint bytes passed tlog.ParseTree (exactly 32-byte hash) in fetchCheckpoint -> ParseCheckpointNote before FeedOnce parsed them again (rule C19.b-sumdb-raw below checks that provenance)",
+	modPath + "/internal/feeder/sumdb | slice2arr | to.Hash -> [32]byte":                 "the checkpoint bytes passed tlog.ParseTree (exactly 32-byte hash) in fetchCheckpoint -> ParseCheckpointNote before FeedOnce parsed them again (rule C19.b-sumdb-raw below checks that provenance)",
 }
 
 func ruleExplicitPanic(w *World, r *Run, rule string) map[*ssa.Function]bool {
@@ -193,6 +192,19 @@ func ruleImplicitPanic(w *World, r *Run, rule string, reach map[*ssa.Function]bo
 						facts = append(facts, f)
 					}
 				}
+				// contract invariants of the standard library for values this site mentions: strings.Split* never returns an
+				// empty slice
+				for _, op := range append([]*Term{ev.Recv}, ev.Args...) {
+					if op == nil {
+						continue
+					}
+					anySub(op, func(t *Term) bool {
+						if t.Kind == "len" && len(t.Args) == 1 && t.Args[0].Kind == "call" && (t.Args[0].Name == "strings.Split" || t.Args[0].Name == "strings.SplitN" || t.Args[0].Name == "strings.SplitAfter" || t.Args[0].Name == "bytes.Split") {
+							facts = append(facts, Fact{T: mk("binop", "<", 0, types.Typ[types.Bool], t, mk("const", "1", 0, types.Typ[types.Int])), Pos: false})
+						}
+						return false
+					})
+				}
 				switch ev.Kind {
 				case "index":
 					kind = "index"
@@ -269,6 +281,10 @@ func ruleImplicitPanic(w *World, r *Run, rule string, reach map[*ssa.Function]bo
 							}
 						case n.Kind == "len":
 						default:
+							// the length of existing data minus a constant, known not to be negative
+							if lb, off := linear(n); lb != nil && lb.Kind == "len" && off.Sign() <= 0 && implies(facts, "<", n, zero, false) {
+								break
+							}
 							// must be bounded: 0 <= n <= 2^20 by the facts on the path
 							if !(implies(facts, "<", n, zero, false) && implies(facts, "<", mk("const", "1048576", 0, types.Typ[types.Int]), n, false)) {
 								ok = false
@@ -312,6 +328,18 @@ func ruleImplicitPanic(w *World, r *Run, rule string, reach map[*ssa.Function]bo
 		if sr.ok {
 			auto++
 			r.Pass(rule, sr.fn+" | "+sr.kind+" | "+sr.desc, w.pos(sr.pos), "")
+			continue
+		}
+		pkgKey := ""
+		if f := w.fn(sr.fn); f != nil {
+			pkgKey = pkgPathOf(f) + " | " + sr.kind + " | " + classifySite(w, sr.fn, sr.kind, sr.operand, sr.desc)
+		} else if i := strings.LastIndex(sr.fn, "."); i > 0 {
+			pkgKey = strings.TrimSuffix(strings.TrimPrefix(sr.fn[:i], "(*"), ")") + " | " + sr.kind + " | " + classifySite(w, sr.fn, sr.kind, sr.operand, sr.desc)
+		}
+		if reason, okT := confirmedSafe[pkgKey]; okT {
+			tabled++
+			usedTable[pkgKey] = true
+			r.Pass(rule, pkgKey+" [confirmed safe: "+reason+"]", w.pos(sr.pos), "")
 			continue
 		}
 		if reason, okT := confirmedSafe[semKey]; okT {
